@@ -43,6 +43,10 @@ type BindScenario struct {
 	Key  string   `json:"key"`
 	Dest BindDest `json:"dest"`
 	Exp  string   `json:"exp"` // generator's declared reference outcome, "" = not declared
+	// Hist > 0 (harness-only, store path): the key has a HISTORY before the observed Bind — another value was stored and bound
+	// under it first (1..4: then the real value is written through Set / Merge / Delete+Set / Clear+Set; 5: the real value itself
+	// was bound once before). Bind depends on the current value only, so the model does not see the history.
+	Hist int `json:"hist,omitempty"`
 }
 
 type BindCall struct {
@@ -645,7 +649,37 @@ func bindOneCall(sc *BindScenario, ref *bindRef, api string) BindCall {
 		s := flyt.NewSharedStore()
 		s.Set(bindNoiseKey, map[string]any{"n": 1})
 		if sc.Pres != "missing" {
-			s.Set(sc.Key, val)
+			if sc.Hist > 0 {
+				tmp := bindMakeDest(&sc.Dest)
+				prior := func() { bindGuard(false, func() error { return s.Bind(sc.Key, tmp) }) }
+				other := map[string]any{"other": true, "id": 12345, "name": "a previous value"}
+				switch sc.Hist {
+				case 1:
+					s.Set(sc.Key, other)
+					prior()
+					s.Set(sc.Key, val)
+				case 2:
+					s.Set(sc.Key, other)
+					prior()
+					s.Merge(map[string]any{sc.Key: val})
+				case 3:
+					s.Set(sc.Key, other)
+					prior()
+					s.Delete(sc.Key)
+					s.Set(sc.Key, val)
+				case 4:
+					s.Set(sc.Key, other)
+					prior()
+					s.Clear()
+					s.Set(bindNoiseKey, map[string]any{"n": 1})
+					s.Set(sc.Key, val)
+				default:
+					s.Set(sc.Key, val)
+					prior()
+				}
+			} else {
+				s.Set(sc.Key, val)
+			}
 		}
 		ran = bindGuard(must, func() error {
 			if must {
@@ -797,6 +831,9 @@ func genBind(r *rng, thorough bool, emit func(BindScenario)) {
 			sc.Exp = "na"
 		} else {
 			sc.Exp = "ok" // marshal(nil) = null decodes into everything
+		}
+		if pres != "missing" && r.chance(35) {
+			sc.Hist = 1 + r.intn(5)
 		}
 		emit(sc)
 	}
